@@ -130,7 +130,9 @@ def run_item(run_one, params, sidx, prefix, expect, budgets, st, deadline=None, 
         st.outcomes[od] = st.outcomes.get(od, 0) + 1
         stt = obs.get('states')
         if stt:
-            st.states.update(stt)
+            # PYTHONHASHSEED is fixed by ./check, so the built-in hash is stable across worker processes; ints keep the
+            # per-chunk result small (sets of raw state tuples made the parent the bottleneck of the deep thread explorations)
+            st.states.update(hash(x) for x in stt)
         st.transitions += obs.get('trans', 0)
         nt = obs.get('nontrivial')
         if nt is not None:
